@@ -62,7 +62,7 @@ CLAIMED = {
    design="6 C07"),
  "C11": dict(
    text="Mostly differential exploration judged by a proved validator; said plainly: the proof technique contributes the judge, not the comparison. Proved: two reductions of one input that both pass reduction_ok generate the same closure (C11_two_valid_reductions_same_closure); RecordGraph.get_graph returns the closest earlier graph frame (C11_get_graph). Per run: classification without and with a recorder in one worker — summand multisets, dependents as sets, both reductions validated (closure part n<=6/7), last graph frame of each builder vs that component's vertices, last frame overall vs all canonical vertices.",
-   note="Three known findings (drifted recording twin: attaches a dependent vertex; drops an independent generator; frames are per component). The recording builder is not modelled. No axioms.",
+   note="Four known findings (drifted recording twin: attaches a dependent vertex; drops an independent generator; frames are per component; step IV does not terminate on a recorded witness). Inputs include two-local chains up to n=7 and a dense stream (long work queues). The recording builder is not modelled. No axioms.",
    technique="differential run of the two builders, judged by the Coq-verified reduction validator",
    category="proof",
    design="6 C11"),
